@@ -975,13 +975,17 @@ class Gen:
             self._prev_branch = tb
         return self.emit("If", [cond], n_out=k, subgraph_free=parent_vis, then_branch=tb, else_branch=eb)
 
-    def g_loop(self, reuse=False, plain_for=False):
+    def g_loop(self, reuse=False, plain_for=False, cond_passthrough=None):
+        """cond_passthrough ("false" | "true" | "input"): Loop(M, cond, ...) with a positive constant trip count AND a condition operand that
+        the body hands on unchanged - the shape PyTorch exports; a false condition means zero iterations whatever M says."""
         vis = self.visible(lambda v: v.dtype in (F32, F64, I64))
         if not vis:
             return
         state = [self.pick(vis) for _ in range(self.pick([1, 1, 2]))]
         trip_kind = self.pick(["const", "const", "dynamic", "none"]) if not plain_for else self.pick(["const", "const", "dynamic"])
         m = self.pick([0, 1, 2, 3])
+        if cond_passthrough:
+            trip_kind, m = "const", self.pick([2, 1, 3])
         parent_vis = self.outer + [v for v in self.env if isinstance(v.arr, np.ndarray)]
         sub = Gen(self.draw, dict(self.cfg, outer=parent_vis, counter=self.counter, used_names=self.used_names,
                                   depth=self.depth + 1, opset=self.opset, overridable=False))
@@ -1020,6 +1024,8 @@ class Gen:
             new_state.append(v)
         # condition out
         ck = self.pick(["pass", "true", "lt"]) if not plain_for else "pass"
+        if cond_passthrough:
+            ck = "pass"
         if ck == "pass":
             r = sub.emit("Identity", [cin])
         elif ck == "true":
@@ -1077,7 +1083,13 @@ class Gen:
                 M = r[0]
         else:
             M = None
-        if plain_for and M is not None:
+        if cond_passthrough == "input":
+            cond0 = self.add_input(BOOL, ())
+            self.features.add("Loop:trip_count_and_passthrough_condition:input")
+        elif cond_passthrough:
+            cond0 = self.const_array(np.asarray(cond_passthrough == "true"), how=self.pick(["node", "init"]))
+            self.features.add("Loop:trip_count_and_passthrough_condition:" + cond_passthrough)
+        elif plain_for and M is not None:
             cond0 = None  # `for i in range(M)` without a condition input (the only loop form proto2python can bring back)
         else:
             cond0 = self.const_array(np.asarray(self.pick([True, True, False])), how=self.pick(["node", "init"])) if self.chance(7) or M is None else None
